@@ -221,6 +221,16 @@ def dispatch (fields : List String) : Result :=
         ++ (if alive != "alive" then ["fail:C19:server-died"] else [])
       { model := impl, oracle := if vsd.isEmpty then "ok" else ",".intercalate vsd, tags := "blocked" }
     | _, _ => { model := "?", oracle := "fail:C19:unparsable", tags := "blocked" }
+  | ["resolve-real", fam, _, _, _, _, _, _, impl] =>
+    -- a resolution under the REAL clock (CPU-bound searches cost no virtual time, so the model cannot
+    -- judge them): it must end within the 60 s budget (+ 5 s of slack for a loaded machine)
+    let parts := impl.splitOn " # "
+    let elapsed := (parts.getD 2 "").toNat?
+    let v := if impl == "hang" || impl == "panic" then "fail:C08:over-60s-budget-cpu-bound-search"
+      else match elapsed with
+        | some ms => if ms > 65000 then "fail:C08:over-60s-budget-cpu-bound-search" else "ok"
+        | none => "fail:C08:unparsable"
+    { model := impl, oracle := v, tags := s!"real/{fam}/" ++ ((parts.headD "").splitOn " ").headD "" ++ (if (elapsed.getD 0) ≥ 59000 then "/at-budget" else "/early") }
   | ["server.fwd", pm, _, kind, impl] =>
     -- the real binary in forwarding mode against a mock forwarder and a decoy port: the verdict is
     -- computed by the harness from what reached the two sockets and from the reply
